@@ -13,6 +13,7 @@
 #include <lp/msg.h>
 #include <lp/process.h>
 #include <lib/random/random.h>
+#include <gvt/fossil.h>
 
 static FILE *f_ops, *f_c;
 static int mode_par, mode_dist;
@@ -26,7 +27,7 @@ static unsigned drain_stage[VS_MAXT];
 static uint64_t th_gvt[VS_MAXT];
 static unsigned long s_below_gvt, s_rb_mismatch, s_double_free, s_rb_after_fossil, s_rb_checked, s_gvt_decrease,
     s_gvt_disagree;
-static unsigned long n_alloc, n_free;
+static unsigned long n_alloc, n_free, n_fossil_attempts;
 #define MAXLP 64
 #define MAXH (1u << 20)
 static uint64_t *dg[MAXLP];        /* dg[lp][absolute history length] = state digest when first reached */
@@ -249,6 +250,7 @@ void verif_trace(unsigned kind, uint64_t a, uint64_t b, uint64_t c)
 			    m->pl_size, (unsigned long long)gm_payload_digest(m->pl, m->pl_size));
 			break;
 		case VK_DEQUEUE:
+			n_fossil_attempts += lps[b].fossil_epoch != fossil_epoch_current;
 			OP("deq %u %llu", r, (unsigned long long)ord_of(m));
 			if(r < VS_MAXT && tq_of(m->dest_t) < th_gvt[r])
 				s_below_gvt++;
@@ -466,11 +468,11 @@ static void print_stats(const char *outcome)
 	printf("{\"outcome\":\"%s\",\"lines\":%lu,\"dispatch\":%lu,\"frozen_dispatch\":%lu,\"fwd\":%lu,\"rollbacks\":%lu,"
 	       "\"silent\":%lu,\"antis\":%lu,\"gvt\":%lu,\"ckpt\":%lu,\"fossil\":%lu,\"msgs\":%llu,\"steps\":%llu,"
 	       "\"switches\":%llu,\"s_below_gvt\":%lu,\"s_rb_mismatch\":%lu,\"s_double_free\":%lu,\"s_rb_checked\":%lu,"
-	       "\"s_rb_after_fossil\":%lu,\"s_gvt_decrease\":%lu,\"s_gvt_disagree\":%lu,\"allocs\":%lu,\"frees\":%lu,\"votes\":%lu,\"s_vote_false_pred\":%lu,\"antis_remote\":%lu",
+	       "\"s_rb_after_fossil\":%lu,\"s_gvt_decrease\":%lu,\"s_gvt_disagree\":%lu,\"allocs\":%lu,\"frees\":%lu,\"votes\":%lu,\"s_vote_false_pred\":%lu,\"antis_remote\":%lu,\"fossil_attempts\":%lu",
 	    outcome, n_lines, n_dispatch, n_frozen_dispatch, n_fwd, n_rollbacks, n_silent, n_antis, n_gvt, n_ckpt, n_fossil,
 	    (unsigned long long)next_ord, (unsigned long long)vs_steps, (unsigned long long)vs_switches, s_below_gvt,
 	    s_rb_mismatch, s_double_free, s_rb_checked, s_rb_after_fossil, s_gvt_decrease, s_gvt_disagree, n_alloc, n_free,
-	    n_votes, s_vote_false_pred, n_ev[39]);
+	    n_votes, s_vote_false_pred, n_ev[39], n_fossil_attempts);
 	printf(",\"points\":[");
 	for(int t = 0; t < vs_registered && t < VS_MAXT; ++t)
 		printf("%s{\"last\":%u,\"stage\":%u}", t ? "," : "", vs_point[t], drain_stage[t]);
@@ -527,6 +529,7 @@ int main(int argc, char **argv)
 	GM.mem_ops = argu(argc, argv, "mem", 1);
 	GM.t0_events = argu(argc, argv, "t0", 0);
 	GM.lib = argu(argc, argv, "lib", 0);
+	GM.skew = argu(argc, argv, "skew", 0);
 	unsigned threads = argu(argc, argv, "threads", 2);
 	unsigned ckpt = argu(argc, argv, "ckpt", 3);
 	vperiod = argu(argc, argv, "period", 1000);
@@ -541,9 +544,9 @@ int main(int argc, char **argv)
 	gm_on_fini = on_fini;
 
 	if(!mode_dist) {
-		OP("model %llu %u %u %u %u %u %u %u %u %u %u %llu", (unsigned long long)GM.seed, GM.n_lps, GM.n_types,
+		OP("model %llu %u %u %u %u %u %u %u %u %u %u %llu %u", (unsigned long long)GM.seed, GM.n_lps, GM.n_types,
 		    GM.max_fan, GM.thr_base, GM.thr_spread, GM.use_rng, GM.mem_ops, GM.t0_events, threads, ckpt,
-		    (unsigned long long)tterm_q);
+		    (unsigned long long)tterm_q, GM.skew);
 		RE("model ok");
 		OP("period %llu", (unsigned long long)vperiod);
 		RE("period");
